@@ -276,8 +276,33 @@ func runC03(c *Ctx, r *Rec) {
 				bad = fmt.Sprintf("%d %s but %d %s: the key index and the ordered list diverge", len(count[a]), a, len(count[b]), b)
 				return
 			}
+			// a reset that is done only when there is something to reset (if len(keys) > 0 { keys =
+			// make(...) }) stands where its guard stands
+			lift := func(st ast.Stmt) ast.Stmt {
+				chain := pathTo(fd.Body, st)
+				for ci := len(chain) - 2; ci >= 0; ci-- {
+					is, ok := chain[ci].(*ast.IfStmt)
+					if !ok {
+						continue
+					}
+					if is.Else != nil || is.Init != nil || len(is.Body.List) != 1 || is.Body.List[0] != st {
+						return st
+					}
+					be, ok := ast.Unparen(is.Cond).(*ast.BinaryExpr)
+					if !ok {
+						return st
+					}
+					for _, side := range []ast.Expr{be.X, be.Y} {
+						if call, ok := ast.Unparen(side).(*ast.CallExpr); ok && isBuiltinCall(info, call, "len") && len(call.Args) == 1 && selectorField(info, call.Args[0]) != nil {
+							return is
+						}
+					}
+					return st
+				}
+				return st
+			}
 			for i := range count[a] {
-				if !sameRegion(fd, count[a][i].stmt, count[b][i].stmt) {
+				if !sameRegion(fd, lift(count[a][i].stmt), lift(count[b][i].stmt)) {
 					bad = fmt.Sprintf("the %s at %s and the %s at %s are not in the same control region: one can happen without the other", a, c.pos(count[a][i].node.Pos()), b, c.pos(count[b][i].node.Pos()))
 				}
 			}
